@@ -1,55 +1,9 @@
-"""Per-property configuration of the check driver: correspondence/direct streams, evidence texts."""
+"""Per-property configuration of the check driver: one file per property in lib/props.d/Cnn.py
+(each defines CFG = {...}: correspondence/direct streams, evidence texts)."""
+import os, glob
 
-PROPS = {
- "C16": {
-  "streams": [
-   {"name": "C16", "n_quick": 480, "n_thorough": 4000, "thorough_seeds": 1,
-    "what_fails": "File::execute on a generated declaration set x supply pattern disagreed with Model/Globals.v: 1 = different error variant, 2 = implementation failed where check_globals succeeds, 3 = implementation succeeded where the model reports MissingGlobalVariable/ExpectedList/DuplicateVariable, 4 = panic, 90 = a caller's Variables set changed (iter() before/after), 100+i / 200+i / 300+i / 400+i = i-th attribute copied from a global has another value / reads an unbound name / has another name / is missing; load-time cases: 11 = other CheckError variant, 12 = hide/set/duplicate of a global accepted, 13 = control program rejected"},
-  ],
-  "rule": "deterministic exhaustive part (tag product-exhaustive): phase A = 1 global: quantifier{none,?,*,+} x default{absent,present} x supply kind{absent,string,integer,bool,null,list,set,composite/empty list} x mode{strict,lazy} = 128; phase static = 8 forms (second `global`, let, var, node, for-variable, list-/set-comprehension variable, set) x {declared global a, declared global b, control name} = 24 load-time cases; phase shadow = local definition (let/var/node/for) of a supplied-but-undeclared name x {not supplied, inner set, outer set} x mode = 24; phase B = 2 globals: (quantifier class{plain,list} x default x supply class{absent,list,non-list})^2 x mode = 288 with class members rotating over all quantifiers/kinds; thorough adds phase C = 2 globals: (quantifier(4) x default(2) x supply{absent,string,list,integer})^2 x mode = 2048; the rest is random: 1-4 (70%: 3-4) distinct names, any quantifier/default (incl. escapes, unicode), values without graph/syntax nodes from the shared generator, chains of 1-4 nested Variables with hiding and undeclared extras, reads inside if/for/scan blocks nested 0-3 deep, both modes per draw. Supply chains rotate over 6 shapes (direct, inner of two, outer of two, outermost of three, inner hiding a different-kind outer value, alternating). non-trivial = at least 2 declared globals with at least one default and at least one supplied value; distinct by hash of (declarations, chain, reads, mode, blocks)",
-  "explanation": "Theorems (induction over the declaration list, any chain): check_globals_spec (Err e <-> the first declaration, in order, that is missing without default or list-typed but supplied a non-list has status e; Ok -> effective environment = supplied, else default as string; total, no panic), check_globals_outcomes (DuplicateVariable branch is dead code, any declaration list), missing_sound/missing_iff, list_sound, caller_unchanged(+_chain), defaults_frame (the nested copy holds exactly the defaults of unsupplied names), lookup_after, supplied_wins, undeclared_supplied_kept. Correspondence: real File::from_str + File::execute in both modes on the product of declarations x supply patterns (directly and through nested Variables) with programs copying every global into node attributes at block depth 0-3; compared: root-cause error variant or every attribute value against check_globals + globals_get, Variables::iter() of every set of the caller's chain before/after, and the load-time hide/set/duplicate rules against static_global_rule.",
-  "assumptions": ["the declaration list given to the model is the one File::from_str produced: the harness writes the declarations both as DSL text and as Coq terms (parser.rs parse_global is exercised, not modelled: name, quantifier character, optional string default with escapes)",
-                  "distinct declared names (NoDup) in check_globals_spec/missing_iff is what File::check enforces (DuplicateGlobalVariable, exercised by the static cases); the remaining theorems hold for any declaration list",
-                  "HashMap iteration order is not observable: Variables::iter() and attributes are compared as name-sorted lists",
-                  "Rust's shared borrow `&Globals` already forbids writes to the caller's sets; the model states it as: defaults are added to the head (nested) frame only"],
-  "partial": ["global_eval (not yet proved): in every stanza and block, in both modes, a declared global evaluates to globals_get of the chain returned by run_globals, and accepted files never add/set such a name - needs the interpreter and checker models (written separately); here only its ingredients are modelled (unscoped_lookup, unscoped_add_guard, unscoped_set_guard, static_global_rule) and the statement is TESTED by the correspondence stream (reads at depth 0-3 in if/for/scan, hide/set/duplicate at load time, run-time DuplicateVariable for local definitions of undeclared supplied names)"],
- },
- "C17": {
-  "streams": [
-   {"name": "C17", "n_quick": 160, "n_thorough": 1600, "thorough_seeds": 3, "shrink_field": "ops",
-    "what_fails": "a public container operation returned a value different from the map/set model (first differing operation index = verdict_code-1)"},
-  ],
-  "rule": "random API histories (5-200 ops, 10% of length 200) over add_graph_node/add_edge/get_edge/get_edge_mut/Attributes add,get,iter/iter_nodes/iter_edges/node_count/edge_count/Variables nested,add,get,remove,clear,is_empty,iter; a hub node receives >8 edges in half the cases; non-trivial = history containing at least one attribute conflict AND one re-added edge or duplicate variable; distinct by hash of the op list",
-  "explanation": "Theorems: Attributes::add refines the documented map contract; sorted insert correct; every history keeps edges strictly ascending and names unique; node refs dense; nested variable sets never write outer frames. Correspondence: every return value of every operation, model (vm_compute) vs real containers.",
-  "assumptions": ["std::binary_search_by_key honours its documented contract on sorted slices (modelled by its specification)",
-                  "HashMap iteration order is not observable: attribute/variable iteration is compared as a name-sorted list"],
-  "partial": [],
- },
- "C18": {
-  "streams": [
-   {"name": "C18", "n_quick": 150, "n_thorough": 1500, "thorough_seeds": 3, "shrink_field": "lines",
-    "what_fails": "ParseError::first/all/into_first/into_all or a Display impl differs from the model on a generated Python source (verdict_code: 1 all, 2 first, 3 into_all read on another thread, 4 into_first read on another thread, 5 plain display text/panic, 6 pretty display text/panic, 7 citation of path:line:col differs, 8 model not Ok, 9 malformed observation, 10 display on the other thread differs, 99 oracle assumption violated: a visible ERROR/MISSING node but root.has_error() is false)"},
-  ],
-  "rule": "generated Python sources (1-6 top-level statements: assignments, calls, returns, augmented assignments, defs, if/else, for, nested two deep; non-ASCII identifiers, strings and paths incl. 4-byte characters; 5% CRLF, 15% without final newline; varied spacing) with i mod 7 = 0..6 injected faults (delete/duplicate a token, insert an unbalanced bracket, a stray character or a misplaced keyword, delete a closing bracket/colon, MISSING-producing shapes `x. = 1`, `if :`); the first fault is biased in turn to anywhere / file start / file end / a line after the first; parsed with tree-sitter-python; non-trivial = at least two reported errors or a flagged node nested inside another flagged node; distinct by hash of the source",
-  "explanation": "Theorems (Coq, unbounded): the cursor loop of find_errors, modelled as a zipper walk with one iteration per unit of fuel and the is_error/else-if is_missing test on every iteration, returns with 2*size+1 fuel exactly the document-order list of ERROR/MISSING nodes without a flagged proper ancestor (error takes precedence), never runs out of fuel; first_only returns the head of that list; trees without flagged node yield nothing (and only those); plain and pretty display never panic on position data whose byte range is ordered and on character boundaries (string slicing is modelled with explicit Panic outcomes), plain display starts with path:row+1:col+1:, pretty display contains it when the byte range is non-empty; dec is the decimal numeral. Correspondence: per generated tree the model (vm_compute) is compared with the real library on the (kind, preorder id) lists of first/all/into_first/into_all (owning bundles are moved to and read on another thread, where displays are recomputed), the complete text of display and display_pretty for every reported error (under catch_unwind), and the citation flags computed on the Rust side.",
-  "assumptions": ["oracle: a visible ERROR or MISSING node implies tree.root_node().has_error() (checked on every generated tree, verdict 99); the converse is false for real trees (`pass pass` has a MISSING hidden _newline: has_error() without any flagged visible node) and is not assumed",
-                  "TreeCursor goto_first_child/goto_next_sibling/goto_parent behave as the zipper of the recorded tree (the recorded tree is itself obtained by a cursor walk; cross-checked by the agreement of the reported ids)",
-                  "Excerpt::gutter_width uses f64 log10; modelled as the number of decimal digits of row+1 (rows below 2^53, log10 exact at powers of ten; row 9/10 boundary exercised)",
-                  "usize arithmetic (row+1, start+len) does not overflow; built without the term-colors feature",
-                  "soundness of the unsafe Send/Sync impls and the lifetime transmute of the owning bundles is only exercised dynamically (move to another thread, read there), not proved"],
-  "partial": ["display_pretty_cites_partial: the pretty display cites line and column only when the node's byte range is non-empty. For every MISSING node (zero width) ParseErrorDisplayPretty prints just `missing syntax` and an empty line, no position (theorem display_pretty_empty_range; observed on the real library, tag pretty_without_position). The property's claim 'plain or pretty ... cites the node's line and column' is therefore false for pretty display of MISSING nodes; model and implementation agree on this behaviour."],
- "C19": {
-  "pre": "cli",   # vcheck.pre_cli: build /repo's CLI (--features cli) into .work/cli-target, prepare .work/cli-env
-   {"name": "C19", "n_quick": 128, "n_thorough": 1280, "thorough_seeds": 3,
-    "what_fails": "the built tree-sitter-graph binary behaved differently from Model/Cli.v applied to the library's in-process results (verdict_code: 1 = --global split differs from the model, 2 = exit status, 3 = stdout content, 4 = --output file content, 5 = stderr empty/non-empty)"},
-  "rule": "generated (DSL file, Python source) pairs: 1-3 stanzas out of 7 shapes (scoped root + child edges, identifiers, function parameters loop, call sites, list/set literals, global readers with and without default, class names), empty files, 7 kinds of loader rejection, 4 kinds of run-time failure, use-before-definition of a scoped variable (strict fails, lazy succeeds); 6 valid and 5 syntactically broken sources (one with >5 errors); option sets: the 32 combinations of --lazy/--json/--output/--quiet/--allow-parse-errors enumerated cyclically (--output: fresh path, existing file, path in a missing directory), 0-3 --global (values with '=', empty, non-ASCII; 10% required global missing, 9% without '=', 9% duplicate name; shuffled); non-trivial = the binary got past clap and the DSL file has at least one stanza; distinct by hash of (DSL, source, argv)",
-  "explanation": "Theorems (about the decision function `cli` of Model/Cli.v, all non-boolean parameters universally quantified): exit 0 iff arguments well formed, DSL loads, (no syntax error or --allow-parse-errors) and execution succeeds in the selected mode with every --global bound as a string; then JSON goes to the --output file (stdout empty) or to stdout, the pretty graph to stdout unless --quiet; --quiet changes nothing but the pretty graph; non-zero exit means no graph anywhere and a diagnostic; exit 2 only for --output without --json; specification of the --global loop (split at the first '=', duplicate names rejected). Correspondence: the binary built from /repo's working tree on every run vs `cli` applied to the results of the library run in-process on the same files (both modes): exit code, stdout and --output file compared with the library's pretty/JSON text (JSON compared as a tree with sorted keys plus line multiset, because Attributes serialises in HashMap order), prior file content preserved on failure, stderr empty iff exit 0.",
-  "assumptions": ["the grammar compiled by tree-sitter-loader from the registry copy of tree-sitter-python 0.23.5 is the grammar linked into the harness (same parser.c/scanner.c)",
-                  "generated programs contain no `print` statement (it writes to stderr), so non-empty stderr is read as 'a diagnostic was printed'",
-                  "input files are readable UTF-8, the config/loader steps succeed, stdout is open; --global arguments do not start with '-' (clap would read them as flags)",
-                  "creating a file in an existing directory succeeds and in a missing directory fails (lr_create_ok of the generated cases)",
-                  "observed while building the check: with --json --output PATH an io::Error from File::create is discarded (`display_json(..).unwrap_or(())`): exit status 0, nothing written, no diagnostic (theorem unwritable_output_silent; cli_table (b) states the file content under lr_create_ok)"],
-  "trusted_extra": ["cargo build --features cli of /repo into .work/cli-target; cc building the python grammar for tree-sitter-loader"],
-  "partial": ["clap argument parsing, anyhow and tree-sitter-loader are outside the model; assurance for them is the correspondence stream only"],
- },
-}
+PROPS = {}
+for _p in sorted(glob.glob(os.path.join(os.path.dirname(os.path.abspath(__file__)), "props.d", "C*.py"))):
+    _ns = {}
+    exec(open(_p).read(), _ns)
+    PROPS[os.path.basename(_p)[:-3]] = _ns["CFG"]
